@@ -1,9 +1,9 @@
 #!/usr/bin/env bash
 # Confirm a sub-agent's seeded change independently in a scratch worktree:
 #   suite passes with the change, demo fails with it, demo passes without it.
-# usage: tools/confirm_seed.sh <dir with patch.diff and demo_test.rs>      (scratch worktree: /tmp/seedcheck/wt)
-d="$1"; wt=/tmp/seedcheck/wt
-if [ ! -d "$wt" ]; then mkdir -p /tmp/seedcheck; git -C /repo worktree add --detach "$wt" HEAD >/dev/null 2>&1 || exit 2; fi
+# usage: tools/confirm_seed.sh <dir with patch.diff and demo_test.rs>      (scratch worktree: $CONFIRM_WT, default /tmp/seedcheck/wt)
+d="$1"; wt="${CONFIRM_WT:-/tmp/seedcheck/wt}"
+if [ ! -d "$wt" ]; then mkdir -p "$(dirname "$wt")"; git -C /repo worktree add --detach "$wt" HEAD >/dev/null 2>&1 || exit 2; fi
 cd "$wt" || exit 2
 git checkout -q --detach "$(git -C /repo rev-parse HEAD)" 2>/dev/null
 git checkout -- . ; rm -f tests/demo_test.rs
